@@ -25,7 +25,9 @@ import time
 
 HERE = os.path.dirname(os.path.abspath(__file__))
 
-DEPENDS = ["CMemBase", "CMem (generated)", "CMemSpec", "CMemProofs", "CMemCalls", "C04"]
+DEPENDS = ["CMemBase", "CMem (generated)", "CMemSpec", "CMemProofs", "CMemCalls", "CCallBase", "CCallers (generated)", "CCallSpec",
+           "CCallersP", "CCallersBuilder", "Builder (C13 model)", "C04"]
+GENERATORS = ["c04_c2vc", "c04_callers"]
 TRUSTED_BASE = [
     "tools/gen/c04_c2vc.py: gcc -E (stub headers) + pycparser report the program; the symbolic executor reports every memory access "
     "(cross-checked on every explored call: the instrumented build's actual (offset,length,size) per access id must equal the model's)",
@@ -33,6 +35,12 @@ TRUSTED_BASE = [
     "EVP_CipherInit_ex/EVP_CIPHER_CTX_ctrl touch given their arguments (EVP_CipherUpdate writes at most inl + block_size - 1 bytes)",
     "CPython argument parsing: 'y#' yields a pointer to exactly len readable bytes followed by a NUL; 'n' range-checks, B/H/I/K reduce modulo 2^k",
     "extraction (ExtrOcamlBasic) + OCaml driver for exec_c04 / exec_cbuf; this harness",
+    "tools/gen/c04_callers.py: ast-based symbolic evaluation of CryptoContext.encrypt_packet/decrypt_packet, QuicPacketBuilder._end_packet, "
+    "QuicConnection.receive_datagram, pull_quic_header (sizes only; fail closed outside its subset; it also checks that no other place of "
+    "src/aioquic constructs or calls AEAD/HeaderProtection); Python slice-length semantics py_slice_len and the 'I' format conversion c_int_of_I "
+    "(model/CCallBase.v); cross-checked on every explored connection: the recorded (named quantities, argument lengths) of every "
+    "_end_packet/encrypt_packet and pull_quic_header/decrypt_packet pair must equal what gen/CCallers.v computes (vm_compute)",
+    "coq/model/Builder.v (C13's size model of QuicPacketBuilder, run against the implementation by ./check C13) for the theorems named *_builder",
     "sanitizers and the checked build only see explored inputs; the for-all statement is the Coq one over the generated model",
 ]
 ASSUMPTIONS = [
@@ -40,8 +48,11 @@ ASSUMPTIONS = [
     "addresses are below 2^47 (x86-64/aarch64 user space), so `pos + len` with len < 2^63 does not wrap in 64 bits",
     "OpenSSL honours the EVP interface: 0 <= outl <= inl + block_size - 1; set_key_length accepts only 1..64; reads keylen/ivlen bytes",
     "malloc success is an explicit variable of the model (malloc_ok); nothing is assumed about it",
-    "caller size model for sealing: frames are only written while remaining_buffer_space allows (start + size + 16 <= max_datagram_size); "
-    "checked dynamically on every explored connection, not proved",
+    "library_seal_calls_meet_contract (calls never rejected): the packet fits its datagram (start + size + 16 <= max_datagram_size <= 1500) -- in "
+    "the *_builder form this is the completion (ODone) of _end_packet in C13's builder model; AEAD output length = input length + 16 "
+    "(GCM / ChaCha20-Poly1305).  Memory safety (library_calls_safe, crypto_safe_all_arguments) needs none of these",
+    "uninitialised native objects (AEAD.__new__(AEAD) / HeaderProtection.__new__(..) without __init__) are outside the model: R_* describe "
+    "calls on constructed objects; see uninitialised_object_calls in the evidence and docs/C04.md finding 5",
 ]
 
 EXC_CODES = {"TypeError": 2, "BufferReadError": 3, "BufferWriteError": 4, "ValueError": 5, "CryptoError": 6, "MemoryError": 7,
@@ -237,7 +248,115 @@ def _drain(conn):
         ev.append(e)
 
 
+_SITES = {"seal": set(), "open": set()}
+_SITE_CAP = 250
+
+
+def _install_site_hooks():
+    """Record, for the cross-check of the GENERATED caller model (coq/gen/CCallers.v): at every _end_packet the named
+    quantities of the translated site and the lengths actually handed to CryptoContext.encrypt_packet (or that no call was made);
+    at every pull_quic_header/decrypt_packet pair (capacity, tell before, tell after, packet_length) and (len(packet), offset)."""
+    from aioquic.quic import packet_builder as pb, connection as cn, crypto as cr
+    from aioquic.quic.packet import QuicPacketType
+    if getattr(pb, "_c04_hooked", False):
+        return
+    pb._c04_hooked = True
+    cur = {}
+    orig_end = pb.QuicPacketBuilder._end_packet
+
+    def end_packet(self):
+        b = (self._buffer.tell(), self._packet_start, self._header_size, int(bool(self._is_client)),
+             int(bool(self._packet.is_ack_eliciting)), int(self._packet_type == QuicPacketType.INITIAL),
+             int(bool(self._datagram_needs_padding)), int(self._packet_type == QuicPacketType.ONE_RTT),
+             self.remaining_flight_space)
+        cur["b"], cur["called"] = b, False
+        try:
+            return orig_end(self)
+        finally:
+            if not cur.get("called") and len(_SITES["seal"]) < _SITE_CAP:
+                _SITES["seal"].add(b + (-1, -1))
+            cur.pop("b", None)
+    pb.QuicPacketBuilder._end_packet = end_packet
+    orig_enc = cr.CryptoContext.encrypt_packet
+
+    def encrypt_packet(self, plain_header, plain_payload, packet_number):
+        if "b" in cur:
+            cur["called"] = True
+            if len(_SITES["seal"]) < _SITE_CAP:
+                _SITES["seal"].add(cur["b"] + (len(plain_header), len(plain_payload)))
+        return orig_enc(self, plain_header, plain_payload, packet_number)
+    cr.CryptoContext.encrypt_packet = encrypt_packet
+    orig_pull = cn.pull_quic_header
+
+    def pull(buf, host_cid_length=None):
+        t0 = buf.tell()
+        h = orig_pull(buf, host_cid_length=host_cid_length)
+        cur["rx"] = (buf.capacity, t0, buf.tell(), h.packet_length)
+        return h
+    cn.pull_quic_header = pull
+    orig_dec = cr.CryptoContext.decrypt_packet
+
+    def decrypt_packet(self, packet, encrypted_offset, expected_packet_number):
+        rx = cur.pop("rx", None)
+        if rx is not None and len(_SITES["open"]) < _SITE_CAP:
+            _SITES["open"].add(rx + (len(packet), encrypted_offset))
+        return orig_dec(self, packet, encrypted_offset, expected_packet_number)
+    cr.CryptoContext.decrypt_packet = decrypt_packet
+
+
+def child_lifecycle(case):
+    """Native objects used without / after a failed __init__ (direct API only)."""
+    from aioquic import _crypto, _buffer
+    w = case["what"]
+    try:
+        if w.startswith("aead_"):
+            a = _crypto.AEAD.__new__(_crypto.AEAD)
+            if "_badinit_" in w:
+                try:
+                    a.__init__(b"aes-128-gcm", bytes(33), bytes(12))
+                except Exception:
+                    pass
+            r = a.encrypt(b"abc", b"", 0) if w.endswith("encrypt") else a.decrypt(bytes(20), b"", 0)
+        elif w.startswith("hp_"):
+            h = _crypto.HeaderProtection.__new__(_crypto.HeaderProtection)
+            r = h.apply(b"\x41" + bytes(10), bytes(30)) if w.endswith("apply") else h.remove(bytes(40), 5)
+        elif w == "buffer_new":
+            b = _buffer.Buffer.__new__(_buffer.Buffer)
+            out = [b.capacity, b.tell(), b.eof(), len(b.data), len(b.data_slice(0, 0)), len(b.pull_bytes(0))]
+            for m, a in (("push_uint8", (1,)), ("pull_uint8", ()), ("push_bytes", (b"x",)), ("pull_uint_var", ()), ("seek", (1,))):
+                try:
+                    getattr(b, m)(*a)
+                    out.append("ok")
+                except Exception as e:  # noqa
+                    out.append(type(e).__name__)
+            return {"out": ["ok", out]}
+        elif w == "buffer_reinit":
+            b = _buffer.Buffer(capacity=8)
+            b.push_bytes(b"abcdefgh")
+            b.__init__(capacity=4)
+            b.push_bytes(b"wxyz")
+            try:
+                b.push_uint8(1)
+                return {"out": ["ok", "write past the new capacity accepted"]}
+            except Exception as e:  # noqa
+                return {"out": ["ok", [b.capacity, b.tell(), type(e).__name__]]}
+        else:
+            return {"out": ["exc", "UnknownCase"]}
+        return {"out": ["ok", reslen(r)]}
+    except BaseException as e:  # noqa
+        return {"out": ["exc", type(e).__name__, str(e)[:100]]}
+
+
 def child_conn(case, errmark, step):
+    _install_site_hooks()
+    _SITES["seal"].clear()
+    _SITES["open"].clear()
+    res = _child_conn(case, errmark, step)
+    res["sites"] = {"seal": sorted(_SITES["seal"])[:_SITE_CAP], "open": sorted(_SITES["open"])[:_SITE_CAP]}
+    return res
+
+
+def _child_conn(case, errmark, step):
     sc = case["scenario"]
     p = case.get("params", {})
     notes = []
@@ -378,6 +497,8 @@ def child_main():
                 res = child_bufseq(case, errmark)
             elif k == "conn":
                 res = child_conn(case, errmark, step)
+            elif k == "lifecycle":
+                res = child_lifecycle(case)
             else:
                 res = {"error": "kind"}
         except BaseException as e:  # noqa
@@ -1372,6 +1493,74 @@ def conn_findings(case, res_by_build):
 
 
 # ------------------------------------------------------------------------- run / replay
+def zl(v):
+    return str(int(v)) if int(v) >= 0 else "(%d)" % int(v)
+
+
+def check_call_sites(ctx, site_obs):
+    """Cross-check of the generated caller model: evaluate gen/CCallers.v (vm_compute) on the named quantities recorded
+    in the implementation and compare with the argument lengths the implementation really passed."""
+    pre = ("From Coq Require Import ZArith List Bool.\nFrom AQ Require Import lib.Base model.CCallBase gen.CCallers.\n"
+           "Import ListNotations.\nOpen Scope Z_scope.")
+    bl = lambda v: "true" if v else "false"  # noqa: E731
+    seal = sorted(site_obs["seal"])
+    opn = sorted(site_obs["open"])
+    exprs = []
+    for t in seal:
+        exprs.append("let '(pc, h, p) := end_packet_site %s %s %s %s %s %s %s %s %s in [b2z pc; h; p]" % (
+            zl(t[0]), zl(t[1]), zl(t[2]), bl(t[3]), bl(t[4]), bl(t[5]), bl(t[6]), bl(t[7]), zl(t[8])))
+    for t in opn:
+        exprs.append("let '(L, e) := receive_datagram_site %s %s %s %s in [L; e]" % (zl(t[0]), zl(t[1]), zl(t[2]), zl(t[3])))
+    stats = {"seal_sites": len(seal), "open_sites": len(opn), "seal_without_call": len([t for t in seal if t[9] < 0]),
+             "mismatches": 0, "pull_header_post_failures": 0}
+    if not exprs:
+        return stats
+    try:
+        outs = core.run_vm(pre, exprs)
+    except Exception as e:  # the generated file does not build: reported as proof/translator failure by main.py
+        stats["error"] = str(e)[-300:]
+        return stats
+    for t, o in zip(seal, outs[:len(seal)]):
+        want = [0] if t[9] < 0 else [1, t[9], t[10]]
+        got = o[:1] if o[:1] == [0] else o
+        if got != want:
+            stats["mismatches"] += 1
+            ctx.violation("correspondence", "c04-callers: generated end_packet_site %r != implementation %r for named quantities %r" % (o, want, t[:9]),
+                          {"kind": "conn", "site": "seal", "named": list(t[:9]), "impl": list(t[9:]), "model": o, "scenario": site_obs["seal"][t]},
+                          signature={"site": "end_packet_site"})
+    for t, o in zip(opn, outs[len(seal):]):
+        cap, t0, t1, pl, L, e = t
+        if o != [L, e]:
+            stats["mismatches"] += 1
+            ctx.violation("correspondence", "c04-callers: generated receive_datagram_site %r != implementation %r for named quantities %r" % (o, [L, e], t[:4]),
+                          {"kind": "conn", "site": "open", "named": list(t[:4]), "impl": [L, e], "model": o, "scenario": site_obs["open"][t]},
+                          signature={"site": "receive_datagram_site"})
+        # pull_header_post (generated from pull_quic_header) and the premises of callers_as_modelled on the real run
+        if not (0 <= t0 < t1 <= cap and (pl == t1 - t0 or (t1 - t0 <= pl and t0 + pl <= cap) or pl == cap - t0)):
+            stats["pull_header_post_failures"] += 1
+            ctx.violation("correspondence", "c04-callers: pull_quic_header left (capacity, tell before, tell after, packet_length) = %r outside pull_header_post" % (t[:4],),
+                          {"kind": "conn", "site": "open", "named": list(t[:4]), "scenario": site_obs["open"][t]}, signature={"site": "pull_header_post"})
+    return stats
+
+
+LIFECYCLE = ["aead_new_encrypt", "aead_new_decrypt", "aead_badinit_encrypt", "hp_new_apply", "hp_new_remove", "buffer_new", "buffer_reinit"]
+
+
+def run_lifecycle(chk, asan):
+    """Native objects used before / after a failed __init__ and Buffer re-__init__ (direct API only; outside the property's
+    quantifier and outside the op model): outcome on both builds, recorded in the evidence."""
+    out = {}
+    for w in LIFECYCLE:
+        case = {"kind": "lifecycle", "what": w}
+        r = chk.run(case, timeout=60)
+        ent = {"checked": ("crash rc=%s %s" % (r.get("rc"), json.dumps(r.get("report"))[:200])) if r.get("crash") else r.get("out")}
+        if r.get("crash") and w in ("aead_new_encrypt", "hp_new_remove"):
+            ra = asan.run(case, timeout=120)
+            ent["sanitizer"] = ("crash rc=%s %s" % (ra.get("rc"), json.dumps(ra.get("report"))[:300])) if ra.get("crash") else ra.get("out", ra)
+        out[w] = ent
+    return out
+
+
 def setup_builds(ctx):
     g = load_c2vc()
     model, trs, text, summary = g.build(core.REPO)
@@ -1449,11 +1638,15 @@ def run(ctx):
         # ---- C: real connections: network datagrams, max_datagram_size settings
         conn_stats = {"scenarios": 0, "datagrams_injected": 0, "pairs": 0, "findings": 0, "notes": []}
         seen = set()
+        site_obs = {"seal": {}, "open": {}}
         for case in [dict(c, kind="conn") for c in corr.load_corpus("C04", "c04-conn")] + gen_conn_cases(ctx):
             conn_stats["scenarios"] += 1
             # checked build first; the sanitizer build runs the scenario only when no assertion fired
             # (an aborting sanitizer child costs a restart), and confirms each minimised finding once
             r = chk.quiet.run(case, timeout=300)
+            for k in ("seal", "open"):
+                for t in (r.get("sites") or {}).get(k, []):
+                    site_obs[k].setdefault(tuple(t), _short({"scenario": case.get("scenario"), "params": case.get("params")}, 300))
             results = [("checked", r)]
             found = conn_findings(case, results)
             if not found:
@@ -1480,6 +1673,11 @@ def run(ctx):
                               signature={"site": sig.get("site"), "via": sig.get("via"), "rw": sig.get("rw")},
                               extra={"detail": detail, "sanitizer_on_minimised_case": confirm})
         phases["connections"] = round(time.time() - tp, 1)
+        tp = time.time()
+        # ---- D: generated caller model <-> implementation; object lifecycle outside the op model
+        extra["caller_model_crosscheck"] = check_call_sites(ctx, site_obs)
+        extra["uninitialised_object_calls"] = run_lifecycle(chk.quiet, asan)
+        phases["callers_lifecycle"] = round(time.time() - tp, 1)
         extra["connections"] = conn_stats
         extra["phase_wall_s"] = phases
         extra["runner"] = {"checked_runs": chk.runs, "asan_runs": asan.runs, "asan_crashes": asan.crashes, "checked_crashes": chk.crashes}
